@@ -44,6 +44,8 @@ def build(spec):
                 data[c["name"]] = pd.Series(c["values"], dtype="int64")
         elif k == "int8":
             data[c["name"]] = pd.Series(c["values"], dtype="int8")
+        elif k == "uint16":
+            data[c["name"]] = pd.Series(c["values"], dtype="uint16")
         elif k == "Int64":  # pandas' nullable integers: a missing value is pd.NA and the column stays integer
             data[c["name"]] = pd.Series(pd.array([pd.NA if v is None else int(v) for v in c["values"]], dtype="Int64"))
         elif k == "float":
@@ -203,6 +205,9 @@ def random_frame(draw, cat_vars=("f", "g", "h"), num_vars=("x", "z"), int_vars=(
             v = v + 10 ** draw(st.integers(2, 5))
         elif style == "smallint":
             v = np.round(v * 3)
+        elif style == "uint":  # counts held in an unsigned integer type (differences of neighbours wrap around)
+            cols.append({"name": name, "kind": "uint16", "values": [int(t) for t in np.argsort(np.argsort(v)) * 3 + 1]})
+            continue
         elif style in ("intdtype", "symmetric"):
             ranks = np.argsort(np.argsort(v))  # distinct integers, symmetric around zero
             v = (ranks - (n - 1) / 2.0) * (2 if n % 2 == 0 else 1)
